@@ -220,6 +220,9 @@ def scan_results(run, crate, prefix="A3", only=None):
             name = cname(t)
             if name in ("std::ops::Try::branch", "std::ops::FromResidual::from_residual") or name in TRANSFORMERS:
                 continue
+            if name in ("std::fmt::Write::write_fmt", "std::fmt::Write::write_str", "std::fmt::Write::write_char") and \
+                    arg_ty(body, t["args"][0]).get("adt") == "std::string::String":
+                continue  # writing into a String cannot fail
             if name.startswith("std::fmt::") or name.startswith("core::fmt::"):
                 # fmt::Result inside Display/Debug impls: returned to the formatter
                 if is_result(dty) and t["dest"]["l"] != 0:
